@@ -417,6 +417,8 @@ class PDFPageInterpreter:
 
         def get_colorspace(spec: object) -> Optional[PDFColorSpace]:
             if isinstance(spec, list):
+                if not spec:
+                    return None
                 name = literal_name(spec[0])
             else:
                 name = literal_name(spec)
